@@ -1256,10 +1256,12 @@ static void DecodeCALLP(Word Code) {
     UNUSED(Code);
 
     if (ChkArgCnt(1, 1)) {
-        Boolean OK;
-        Integer AdrInt = EvalStrIntExpression(&ArgStr[1], Int16, &OK);
+        Boolean      OK;
+        tSymbolFlags Flags;
+        Integer AdrInt = EvalStrIntExpressionWithFlags(&ArgStr[1], Int16, &OK, &Flags);
         if (OK) {
-            if ((Hi(AdrInt) != 0xff) && (Hi(AdrInt) != 0)) {
+            if ((Hi(AdrInt) != 0xff) && (Hi(AdrInt) != 0)
+                && !mFirstPassUnknownOrQuestionable(Flags)) {
                 WrError(ErrNum_OverRange);
             } else {
                 CodeLen     = 2;
